@@ -297,8 +297,36 @@ def tasks(tier, seed):
     return [{'cases': ch} for ch in core.chunks(cs, 64)]
 
 
+def fresh_fills(n=3):
+    """the random fills of n new format-4 blocks, with the real random source (no stub)"""
+    from cardutil import pinblock
+    return [int.from_bytes(pinblock.Iso4PinBlock(pin='1234').to_bytes()[8:], 'big') for _ in range(n)]
+
+
+def finalize_acc(acc):
+    """freshness ACROSS processes: every task draws three fills with the real random source; the tasks run in worker
+    processes forked after the library was imported (as a pre-forking server does), so a generator seeded at import
+    and inherited by every child shows as the same fills in sibling processes"""
+    fills = acc.bag.get('fresh_fills', [])
+    if len(fills) != len(set(fills)):
+        seen, dup = set(), None
+        for f in fills:
+            if f in seen:
+                dup = f
+                break
+            seen.add(f)
+        acc.viol('c13.iso4.random.repeats_across_processes', {'fork_fresh': True},
+                 'fill %016x drawn more than once among %d fills drawn in %d tasks' % (dup, len(fills), len(fills) // 3),
+                 'every new block carries fresh random bits', 'the same random fills appear in sibling worker processes')
+    acc.count('fresh_fills_compared_across_processes', len(fills))
+
+
 def run_task(task):
     acc = core.Acc()
+    try:
+        acc.bag['fresh_fills'] = fresh_fills()
+    except Exception:
+        pass
     for i, case in enumerate(task['cases']):
         if i == 0:
             acc.sample(case)
@@ -329,8 +357,20 @@ def describe(tier, seed):
     }
 
 
+def _fresh_in_child(_):
+    a = core.Acc()
+    a.bag['fresh_fills'] = fresh_fills()
+    return a
+
+
 def replay_case(case):
     acc = core.Acc()
+    if case.get('fork_fresh'):
+        # three child processes forked now (the library is already imported), three fills each
+        for a in core.pmap(_fresh_in_child, [0, 1, 2], nworkers=3):
+            acc.merge(a)
+        finalize_acc(acc)
+        return acc
     check_case(case, acc)
     return acc
 
